@@ -293,3 +293,19 @@ norm = Fn(UT + 'norm', ret='r', level='L1', ensures=['C04.norm.def:: rv(r) == r_
 UNITS.append(Unit('C04_reductions', 'C04', [dot, norm], spec=RED_SPEC, preludes=('fax_l0', 'fmeth', 'stdspec', 'l1'),
                   broadcast=('l0', 'l1_arith', 'l1_fun'), level='L1',
                   notes='dot (8-way unrolled) and norm equal their definitions over the reals for every length'))
+
+# sum: 8-way unrolled prefix + iterator tail
+RSUM_SPEC = r'''
+pub proof fn lemma_rsum8(x: Seq<f64>, k: int) requires k >= 0
+    ensures rsum(x, k + 8) == rsum(x, k) + (rv(x[k]) + rv(x[k + 1]) + rv(x[k + 2]) + rv(x[k + 3]) + rv(x[k + 4]) + rv(x[k + 5]) + rv(x[k + 6]) + rv(x[k + 7]))
+{ reveal_with_fuel(rsum, 10); }
+'''
+vsum_fn = Fn(UT + 'sum', ret='s', level='L1', panics={1: 'DEAD'},
+             ensures=['C04.sum.def:: rv(s) == rsum(x@, x@.len() as int)'],
+             loops={1: {'invariant': ['n == x@.len()', 'chunks == (n - n % 8) / 8', 'C04.sum.unrolled:: rv(s) == rsum(x@, i * 8)'],
+                        'body_start': 'lemma_rsum8(x@, i * 8);'},
+                    2: {'iter_name': 'it', 'invariant': ['n == x@.len()', 'chunks == (n - n % 8) / 8', 'C04.sum.rem:: rv(s) == rsum(x@, chunks * 8 + it.index@)'],
+                        'body_start': 'assert(*j == x@[chunks * 8 + it.index@]);'}},
+             hints=[('\n                s\n', 'replace', '\n proof { assert(rv(s) == rsum(x@, n as int)); }\n s\n')])
+UNITS.append(Unit('C04_sum', 'C04', [vsum_fn], spec=RSUM_SPEC, preludes=('fax_l0', 'fmeth', 'stdspec', 'l1'),
+                  broadcast=('l0', 'l1_arith'), level='L1', notes='sum equals its definition over the reals'))
